@@ -3,7 +3,7 @@ package main
 // C09: protocol threads only move along their protocol's state graph.
 //
 // input  := <proto> "|" ops joined by ";"          proto := pp2 | pp3 | ic2 | ic3
-// op     := in T M | out T M | cont I O | stop I
+// op     := in T M | out T M | cont I O | stop I | fail K      (fail K: the K-th send of the messenger from now fails)
 //   T: thread name (t1, t2); M: message short name (present proof: req, reqc (will_confirm), prop, pres, ack, pr;
 //   issue credential: prop, offer, req, cred, ack, pr); I: index into the list of action events still undecided (oldest first);
 //   O: option given to Continue (present proof: pres | prop | req | reqc | none; issue credential: offer | req | cred | none)
@@ -25,9 +25,22 @@ import (
 	spi "github.com/hyperledger/aries-framework-go/spi/storage"
 )
 
-type recMessenger struct{ sent []string }
+// recMessenger records what is sent; `failIn` > 0 arms a transport fault: the failIn-th send from now returns an error
+// (the message is not sent). `faulted` tells the run loop that the fault fired during the current operation.
+type recMessenger struct {
+	sent    []string
+	failIn  int
+	faulted bool
+}
 
 func (m *recMessenger) rec(kind string, msg service.DIDCommMsgMap) error {
+	if m.failIn > 0 {
+		m.failIn--
+		if m.failIn == 0 {
+			m.faulted = true
+			return fmt.Errorf("injected transport fault")
+		}
+	}
 	m.sent = append(m.sent, kind+":"+msg.Type())
 	return nil
 }
@@ -323,6 +336,12 @@ func c09Run(input string) string {
 			} else {
 				pending[i].Stop(nil)
 			}
+		case "fail":
+			// arm a transport fault: the K-th send from now fails (K = 1: the next one)
+			k, _ := strconv.Atoi(f[1])
+			msgr.failIn = k
+			outs = append(outs, "armed")
+			continue
 		default:
 			return "bad-op " + op
 		}
@@ -330,6 +349,15 @@ func c09Run(input string) string {
 		o := "ok"
 		if err != nil {
 			o = "err"
+		}
+		if msgr.faulted {
+			// the operation met the transport fault: whatever it returns, it is not a REJECTED message
+			msgr.faulted = false
+			if err != nil {
+				o = "flt"
+			} else {
+				o = "okflt"
+			}
 		}
 		if bad {
 			o = "noaction"
@@ -493,6 +521,24 @@ func c09Gen(r *Rng, tier string) []string {
 					}
 				}
 			}
+		}
+		if r.N(4) == 0 && len(ops) > 0 {
+			// a transport fault somewhere in the history
+			// (mostly right before a decision: that is where the services send)
+			j := r.N(len(ops))
+			var conts []int
+			for x, o := range ops {
+				if strings.HasPrefix(o, "cont ") {
+					conts = append(conts, x)
+				}
+			}
+			k := 1
+			if len(conts) > 0 && r.N(4) > 0 {
+				j = conts[r.N(len(conts))]
+			} else {
+				k = 1 + r.N(2)
+			}
+			ops = append(ops[:j], append([]string{fmt.Sprintf("fail %d", k)}, ops[j:]...)...)
 		}
 		out = append(out, p+"|"+strings.Join(ops, ";"))
 	}
